@@ -2,6 +2,7 @@ import CalVerif.Lemmas.BiffSheet
 import CalVerif.Lemmas.BiffRange
 import CalVerif.Lemmas.BiffFuel
 import CalVerif.Lemmas.BiffFormulas
+import CalVerif.Lemmas.BiffScan
 /-! C02 — XLS (BIFF8): every cell record reads back at its position with its value.
 
     Property theorems about the model `Model/Biff.lean` (namespace `BiffCells`) and the encoder
@@ -19,6 +20,9 @@ import CalVerif.Lemmas.BiffFormulas
       outcome-class correspondence of the harness checks)
     * `record_framing_roundtrip` — `RecordIter` over framed records
     * `formula_cached_value` — the FormulaValue shapes, string results from the next STRING record
+    * `xls_workbook_encoded`, `xls_single_sheet_exact`, `xls_sheet_loop_work_linear` — the workbook-wide scan counter of
+      the sheet loop (fix edc415f): never reached on an encoded workbook (any physical order of the substreams) nor by
+      a single sheet; on arbitrary bytes the loop bodies over all sheets are linear in the stream
     * `sheetRange_total` — the model's per-loop budgets (`RecordIter`, CONTINUE gathering) suffice on every input
     * `biff_sheet_roundtrip` — the range of an encoded sheet is its bounding box and the value at every cell is
       `expectVal` (the specification's reading of the cell under its layout entry), for every layout (record choice,
@@ -507,6 +511,64 @@ theorem biff_sheet_empty (env : Env) (lays : List Lay) :
   have hfc : formulaCells (items (substream env [] lays)) = (([] : List PC).filter isFmla).map pos3 :=
     formulaCells_substream env [] (by simp)
   simp only [sheetRange, hdec, rangeOf, List.map_nil, Range.fromSparse, withFormulaRange, hfc, List.filter_nil]
+
+/-! ### the scan counter of `parse_workbook` -/
+
+/-- An encoded workbook never reaches the scan limit. `stream` = any globals, the substreams of `sheets` stored one after
+    the other in ANY physical order `phys` (a permutation of the BoundSheet8 order), any padding; every BoundSheet8 offset
+    points at its own substream and no substream is followed by a CONTINUE record. Then the sheet part of
+    `parse_workbook` (`workbookSheets`, counter shared by all sheets) returns exactly the per-sheet readings
+    `sheetRange` of the substreams — the ones `biff_sheet_roundtrip` and its corollaries are about — so every
+    per-sheet statement holds for the sheets of the workbook as the reader returns them. -/
+theorem xls_workbook_encoded (env : Env) (stream pre trail : Bytes) (sheets phys : List SheetAt)
+    (hS : ∀ sh ∈ sheets, ∀ c ∈ sh.S, cellOk c)
+    (hplace : ∀ sh ∈ sheets, ∃ tail, stream.drop sh.pos = sh.bytes env ++ tail ∧ noCont tail)
+    (hperm : sheets.Perm phys)
+    (hlay : stream = pre ++ ((phys.map (fun sh => sh.bytes env)).flatten ++ trail)) :
+    workbookSheets env stream (sheets.map (·.pos)) =
+      collect (sheets.map (fun sh => sheetRange env (substream env sh.S sh.lays))) := by
+  have hsum := layout_sum_le env stream pre trail sheets phys hperm hlay
+  exact sheetsFrom_encoded env stream sheets 0 hS hplace (by omega)
+
+/-- … with sorted cells every one of them succeeds: the workbook opens and has one range per sheet -/
+theorem xls_workbook_encoded_ok (env : Env) (stream pre trail : Bytes) (sheets phys : List SheetAt)
+    (hS : ∀ sh ∈ sheets, (∀ c ∈ sh.S, cellOk c) ∧ sh.S.Pairwise cellLt)
+    (hplace : ∀ sh ∈ sheets, ∃ tail, stream.drop sh.pos = sh.bytes env ++ tail ∧ noCont tail)
+    (hperm : sheets.Perm phys)
+    (hlay : stream = pre ++ ((phys.map (fun sh => sh.bytes env)).flatten ++ trail)) :
+    ∃ rs, workbookSheets env stream (sheets.map (·.pos)) = .ok rs ∧ rs.length = sheets.length := by
+  rw [xls_workbook_encoded env stream pre trail sheets phys (fun sh h => (hS sh h).1) hplace hperm hlay]
+  clear hplace hperm hlay
+  induction sheets with
+  | nil => exact ⟨[], rfl, rfl⟩
+  | cons sh rest ih =>
+    obtain ⟨r, hr, _⟩ := biff_sheet_roundtrip env sh.S sh.lays (hS sh (by simp)).1 (hS sh (by simp)).2
+    obtain ⟨rs, hrs, hl⟩ := ih (fun x hx => hS x (by simp [hx]))
+    exact ⟨r :: rs, by simp only [List.map_cons, collect, hr, hrs], by simp [hl]⟩
+
+/-- a single sheet (the common case, and every per-sheet `dec` of the harness): whatever the bytes, the counter cannot
+    trip, the counted loop is the plain one -/
+theorem xls_single_sheet_exact (env : Env) (stream : Bytes) (pos : Nat) (hp : pos ≤ stream.length) :
+    workbookSheets env stream [pos] =
+      match sheetRange env (stream.drop pos) with
+      | .ok r => .ok [r]
+      | .err e => .err e
+      | .panic m => .panic m
+      | .outOfFuel => .outOfFuel := by
+  have hlen : (stream.drop pos).length ≤ stream.length := by simp
+  simp only [workbookSheets, sheetsFrom, if_neg (Nat.not_lt.mpr hp)]
+  rw [sheetRangeS_eq env _ _ 0 (by simp only [scanLimit]; omega)]
+  cases sheetRange env (stream.drop pos) <;> rfl
+
+/-- work bound for ARBITRARY bytes and offsets: the body of the record loop runs, over all sheets together, at most
+    `(8·len + 65536)/4 + 1` times — in particular at most `8·len + 65536 + (number of sheets)` times: linear in the
+    stream, however the BoundSheet8 offsets overlap (before fix edc415f: `sheets × records`) -/
+theorem xls_sheet_loop_work_linear (env : Env) (stream : Bytes) (offsets : List Nat) :
+    4 * sheetsWork env stream offsets 0 ≤ 8 * stream.length + 65536 + 4 ∧
+    sheetsWork env stream offsets 0 ≤ 8 * stream.length + 65536 + offsets.length := by
+  have h := sheetsWork_bound env stream offsets 0 (by simp [scanLimit])
+  simp only [scanLimit] at h
+  exact ⟨by omega, by omega⟩
 
 /-- "30-bit RK integers as Int", through the reader: in a sheet whose i-th cell holds the integer `v` and is laid out
     as the RK integer word of `v` (alone or inside a MULRK run) under a non-date XF, the value read at that cell is
